@@ -315,6 +315,19 @@ def xout_tests(sx):
     return out
 
 
+def poly_atoms_deep(p):
+    """atom names of a polynomial, including those inside the arguments of function atoms"""
+    out = set()
+    for a in p.atoms():
+        out.add(a)
+        d = DEFS.get(a)
+        if d:
+            for x in d[1]:
+                if isinstance(x, Poly):
+                    out |= poly_atoms_deep(x)
+    return out
+
+
 def xout_rule(rep, f):
     """A callback that answered XOut(xo) is owed an interpolant on the step that contains xo.  The solvers decide this with a
     test on the latched request; evaluated at a model point with xold < xo < x (x = the abscissa handed to the callback of this
@@ -345,44 +358,59 @@ def xout_rule(rep, f):
             tests = xout_tests(sx)
             if not tests:
                 continue
-            cur = {}
+            # two model points: a forward step (X=1 -> 1.5, heading for xend=3) and its mirror image (X=1 -> 0.5, heading
+            # for xend=-1); on both the requested point is the midpoint of the step handed to the callback
+            diff = s["x"] - s["xold"]
+            step_atoms = {a for a in diff.atoms() if a not in ("X", "xend", "x0") and not a.startswith("signum[")}
+            # a quantity whose sign the solver itself takes as the direction is signed
+            signed = {a[7:-1] for t in tests if isinstance(t["value"], Poly) for a in poly_atoms_deep(t["value"]) if a.startswith("signum[") and a.endswith("]")}
+            for sense in (1.0, -1.0):
+                cur = {}
 
-            def leaf(name):
-                if is_payload(name):
-                    return cur["xo"]
-                if name == "xend":
-                    return 3.0
-                return 1.0 if name == "X" else 0.5
-            try:
-                xo_, x_ = pnum.value(s["xold"], {}, leaf), pnum.value(s["x"], {}, leaf)
-            except pnum.NoEval as e:
-                unknown.append((tag, str(e)))
-                continue
-            if not x_ > xo_:
-                unknown.append((tag, "model point does not advance (xold %r, x %r)" % (s["xold"], s["x"])))
-                continue
-            cur["xo"] = 0.5 * (xo_ + x_)
-            for t in tests:
-                seen += 1
+                def leaf(name, sense=sense, cur=cur):
+                    if is_payload(name):
+                        return cur["xo"]
+                    if name == "xend":
+                        return 1.0 + 2.0 * sense
+                    if name == "x0":
+                        return 1.0 - sense
+                    if name == "X":
+                        return 1.0
+                    if name in ("posneg", "direction"):
+                        return sense
+                    if (name in step_atoms and len(step_atoms) == 1) or name in signed:
+                        return 0.5 * sense
+                    return 0.5
                 try:
-                    v = pnum.value(t["value"], {}, leaf)
+                    xo_, x_ = pnum.value(s["xold"], {}, leaf), pnum.value(s["x"], {}, leaf)
                 except pnum.NoEval as e:
                     unknown.append((tag, str(e)))
                     continue
-                if v is not True:
-                    bad.append((tag, t, s))
+                if not (x_ - xo_) * sense > 0:
+                    unknown.append((tag, "model point does not advance in direction %+d (xold %r = %r, x %r = %r)" % (sense, s["xold"], xo_, s["x"], x_)))
+                    continue
+                cur["xo"] = 0.5 * (xo_ + x_)
+                for t in tests:
+                    seen += 1
+                    try:
+                        v = pnum.value(t["value"], {}, leaf)
+                    except pnum.NoEval as e:
+                        unknown.append((tag, str(e)))
+                        continue
+                    if v is not True:
+                        bad.append((tag, t, s, sense))
         n_tests += seen
         if bad:
-            tag, t, s = bad[0]
-            rep.violation("R-XOUT-STEP", key, "the XOut test %r is false for a requested point strictly inside the step [%r, %r] handed to the callback "
-                          "(path variant %s): the interpolant for that step is not prepared" % (t["value"], s["xold"], s["x"], tag), t["node"].get("sp"))
+            tag, t, s, sense = bad[0]
+            rep.violation("R-XOUT-STEP", key, "the XOut test %r is false for a requested point strictly inside the %s step [%r, %r] handed to the callback "
+                          "(path variant %s): the interpolant for that step is not prepared" % (t["value"], "forward" if sense > 0 else "backward", s["xold"], s["x"], tag), t["node"].get("sp"))
         elif unknown or not seen:
             rep.inconc("R-XOUT-STEP", key, "XOut request is latched in %d arm(s) but its test could not be evaluated: %s"
                        % (len(latch_arms), unknown[0][1] if unknown else "no test on the latched value found"), body.get("sp"))
         else:
-            rep.ok("R-XOUT-STEP", key, "%d evaluation(s) of the XOut test hold for xold < xo < x" % seen)
-    if n_tests < 5:
-        rep.inconc("R-XOUT-STEP", "R-XOUT-STEP:floor", "only %d XOut tests evaluated (expected >= 5)" % n_tests)
+            rep.ok("R-XOUT-STEP", key, "%d evaluation(s) of the XOut test hold for a requested point inside the step, forward and backward" % seen)
+    if n_tests < 10:
+        rep.inconc("R-XOUT-STEP", "R-XOUT-STEP:floor", "only %d XOut tests evaluated (expected >= 10)" % n_tests)
 
 
 def bdf_restart_rule(rep, f):
